@@ -277,14 +277,14 @@ theorem exprPrimary_lit {e : Env} {st : St} (F : Nat) (c : UInt8) (k : Nat) (res
 
 
 theorem findUnary_ad {e : Env} {st : St} (p : Nat) (r : List UInt8) (h : Rest e p (97 :: 100 :: r)) :
-    findUnary p unaryOps e st = .ok (some 2) st := by
+    findUnary p (unaryOpsFx Fixes.all) e st = .ok (some 2) st := by
   have h0 : rdAt p e st = .ok 97 st := by
     have := rdAt_eq (st := st) p 0 h (by simp)
     simpa using this
   have h1 : rdAt (p + 1) e st = .ok 100 st := by
     have := rdAt_eq (st := st) p 1 h (by simp)
     simpa using this
-  simp [unaryOps, findUnary, matchAt, bind_def, h0, h1, pure_def]
+  simp [unaryOpsFx, Fixes.all, unaryOps, findUnary, matchAt, bind_def, h0, h1, pure_def]
 
 /-- `dd_expression` on `ad L_Z <source-name> <builtin-type>* E` (address of a function / global) -/
 theorem expression_addr {e : Env} {st : St} (F : Nat) (hF : 2 ≤ F) (id params rest : List UInt8) (hfx : e.fx = Fixes.all)
@@ -315,8 +315,9 @@ theorem expression_addr {e : Env} {st : St} (F : Nat) (hF : 2 ≤ F) (id params 
   simp only [bind_def, peek_eq (st := st) 0 hl h, peek_eq (st := st) 1 hl h, getSt, eof_eq hl h, hne,
     decide_false, Bool.false_eq_true, ↓reduceIte, List.getD_cons_zero, List.getD_cons_succ,
     show ((97 : UInt8) == 103 && (100 : UInt8) == 115) = false from rfl, pure_def]
+  have hgf : getFixes e st = .ok Fixes.all st := by simp [getFixes, hfx]
   unfold bExprA
-  simp only [bind_def, show ((97 : UInt8) == 76) = false from rfl, Bool.false_eq_true, ↓reduceIte,
+  simp only [bind_def, show ((97 : UInt8) == 76) = false from rfl, Bool.false_eq_true, ↓reduceIte, hgf,
     findUnary_ad st.pos _ h, hcons, hinner, pure_def]
   simp [st1, Nat.add_assoc]
 
